@@ -361,12 +361,15 @@ PROPS["C09"] = {
 # ---------------------------------------------------------------------------------------------------------------
 # properties judged on whole runs of the real Applier / Destroyer (domain sys-Cxx) plus component domains
 _SYS_RULE = ("sys: histories of 1-3 apply/destroy runs of the REAL Applier/Destroyer (assembled through the exported builder) over a stateful "
-             "fake API server, with a scripted status watcher that imposes a deterministic schedule: 5 hand-written histories + 500 (quick) / "
+             "fake API server, with a scripted status watcher that imposes a deterministic schedule: 12 hand-written histories + 500 (quick) / "
              "8000 (thorough) generated ones over a catalogue of 12 manifests (namespaces, ConfigMaps, Secrets, a ClusterRole with ':' in its name; "
              "explicit depends-on chains, apply-time mutation, both deletion-prevention annotations), pre-existing un-owned / foreign-owned objects, "
-             "all three inventory policies, prune on/off, client/server dry-run, client/server-side apply, exit-early / skip-invalid with 9 families of "
-             "invalid objects, rejected mutating request k, failed inventory LIST n, failing GET of an object, controllers that never reconcile / "
-             "report stale generations / fail / fail-then-recover / replace the object, finalizers, cancellation before sync / in a wait phase / while "
+             "all three inventory policies, prune on/off, client/server dry-run, client/server-side apply, exit-early / skip-invalid with 14 families of "
+             "invalid objects (incl. catalogue objects that earlier runs applied in their valid form and that turn invalid through their dependency "
+             "annotation, and a mutation annotation listing an external source first), inventory client with StatusPolicyNone / StatusPolicyAll, rejected mutating request k, failed inventory LIST n, failing GET of an object, controllers that never reconcile / "
+             "report stale generations / fail / fail-then-recover / fail-then-report-a-stale-Current / replace the object, distinct real reconcile and prune "
+             "timeouts (a Timeout event must not come earlier than the one configured for its phase), a watcher that closes its stream by itself after "
+             "a fatal error, finalizers, cancellation before sync / in a wait phase / while "
              "request k is in flight, watcher failure, deletions by another actor, repeated identical applies. Every history is non-trivial "
              "(>= 1 run); distinct = distinct canonical input JSON. Compared with the Lean run model: events, every mutating request with the "
              "full store snapshot after it, final store.")
